@@ -19,7 +19,7 @@
                  | (ctor T K e…) | (some e) | (none) | (try e) | (match e arm…) | (fstr e…)
           arm  ::= (arm pat expr|_ blk)
           pat  ::= _ | (p some|none|K n) | (p some|none|K b x…)
-    c07 infer <sexp>           → ok | err <class> | ice | stuck | bad-parse
+    c07 infer <sexp>           → ok | ok unsolved | err <class> | ice | stuck | bad-parse
         the model of the inference pass `RotoV.TcInfer.checkProgM` on the same program text
     c07 op <op> <l> <r>        → ok <t> | rej     (`TcRules.binopReal`)
     c07 opdoc <op> <l> <r>     → ok | rej         (documented rule `Typing.binopTy`)
@@ -40,6 +40,7 @@ import RotoV.Model.Typing
 import RotoV.Model.UnifyTc
 import RotoV.Model.TcRules
 import RotoV.Model.TcInfer
+import RotoV.Model.TcInferSem
 
 namespace Driver.C07
 open RotoV RotoV.Typing
@@ -223,7 +224,9 @@ def handleInfer (text : String) : String :=
   | some (sx, []) =>
     match parseProg sx with
     | some p => match TcInfer.checkProgM p with
-      | .ok _ _ => "ok"
+      | .ok _ st =>
+        -- the premise of `infer_sound_partial`: the store left behind has a solution
+        if TcInfer.satB (TcInfer.solve st.store) st.store then "ok" else "ok unsolved"
       | .err e => s!"err {e.show}"
       | .ice => "ice"
       | .stuck => "stuck"
